@@ -319,6 +319,9 @@ pub enum ReqOut {
 enum Act {
     Fin,
     Reset,
+    /// bytes that arrive one quiescent point later (a leftover that reaches the client only
+    /// after it has consumed the response)
+    Bytes(Vec<u8>),
 }
 
 struct ConnRec {
@@ -623,10 +626,16 @@ async fn drive(sc: Rc<Scen>, chooser: Rc<RefCell<Chooser>>) -> Obs {
             if let Some(act) = c.queue.pop_front() {
                 let mut st = c.st.borrow_mut();
                 match act {
-                    Act::Fin => st.peer_fin(),
-                    Act::Reset => st.peer_reset(),
+                    Act::Fin => {
+                        st.peer_fin();
+                        c.server_closed = true;
+                    }
+                    Act::Reset => {
+                        st.peer_reset();
+                        c.server_closed = true;
+                    }
+                    Act::Bytes(b) => st.arrive(&b),
                 }
-                c.server_closed = true;
                 acted = true;
                 continue;
             }
@@ -722,7 +731,14 @@ async fn drive(sc: Rc<Scen>, chooser: Rc<RefCell<Chooser>>) -> Obs {
             };
             served[j] = Served { conn: Some(ci), ordinal, delivered: k, fault_applied: fault.is_some() };
             let mut seg = prefix;
-            seg.extend_from_slice(&r.bytes[..k]);
+            // a leftover arrives with the response (0) or one quiescent point later (1)
+            let late_leftover = fault.is_none() && k > r.framed_len && chooser.borrow_mut().choose("leftover_delay", 2) == 1;
+            if late_leftover {
+                seg.extend_from_slice(&r.bytes[..r.framed_len]);
+                c.queue.push_back(Act::Bytes(r.bytes[r.framed_len..k].to_vec()));
+            } else {
+                seg.extend_from_slice(&r.bytes[..k]);
+            }
             if !seg.is_empty() {
                 st.arrive(&seg);
             }
@@ -733,6 +749,7 @@ async fn drive(sc: Rc<Scen>, chooser: Rc<RefCell<Chooser>>) -> Obs {
                     match f {
                         Act::Fin => st.peer_fin(),
                         Act::Reset => st.peer_reset(),
+                        Act::Bytes(_) => {}
                     }
                     c.server_closed = true;
                 } else {
